@@ -1,7 +1,10 @@
 --------------------------- MODULE MC_Filenames ---------------------------
 (* Exhaustive check of the Filenames machine on scaled constants.
-   MC_Filenames.cfg      one step, wide alphabet {a A . _ * c o n}, all user names up to
-                         MaxNameLen, MaxLen 6, counter width 2: Legal / Bounded per name.
+   MC_Filenames.cfg      one step, wide alphabet of symbols {a A . _ * con}, all user names of
+                         up to MaxNameLen symbols, MaxLen 6, counter width 2: Legal / Bounded
+                         per name ("con" is one symbol of the generator so that five symbols
+                         reach a.con.a, aa.cona -> clipped to the reserved aa.con, con.A ...;
+                         the machine sees single characters).
    MC_Filenames_seq.cfg  histories of up to MaxSeq names over {a A _ 1}, MaxLen 4, counter
                          width 1, counter limit 3 (so handleClash2 is reached): Legal /
                          Bounded / CaseUnique for every sequence of names.
@@ -22,15 +25,19 @@ SeqAffixes == { <<<<>>, <<>>>>, <<<<>>, <<46>>>> }
 ReservedCon == { <<99, 111, 110>> }
 ReservedNone == { <<120>> }
 
-UserNames == UNION { [1..k -> Alphabet] : k \in 1..MaxNameLen }
+(* Alphabet: a set of symbols, each a non-empty sequence of code points *)
+WideSymbols == { <<97>>, <<65>>, <<46>>, <<95>>, <<42>>, <<99, 111, 110>> }
+SeqSymbols == { <<97>>, <<65>>, <<95>>, <<49>> }
+SymbolSeqs(lo, hi) == UNION { [1..k -> Alphabet] : k \in lo..hi }
+UserNames == { Flat(w) : w \in SymbolSeqs(1, MaxNameLen) }
 (* head: how the FIRST user name of a history begins, chosen with the initial state.  It only
    partitions the same set of histories over more initial states, so that TLC's workers share
    the one-step configuration (3 initial states otherwise); <<>> = no restriction.        *)
-WideHeads == UNION { [1..k -> Alphabet] : k \in 1..2 }
+WideHeads == SymbolSeqs(1, 2)
 NoHeads == { <<>> }
 UserNamesFor(h) == IF h = <<>> THEN UserNames
-                   ELSE IF Len(h) < 2 THEN {h}
-                   ELSE {h \o t : t \in UNION { [1..k -> Alphabet] : k \in 0..(MaxNameLen - 2) }}
+                   ELSE IF Len(h) < 2 THEN {Flat(h)}
+                   ELSE {Flat(h \o w) : w \in SymbolSeqs(0, MaxNameLen - 2)}
 ASSUME HeadsPartition == UNION {UserNamesFor(h) : h \in Heads} = UserNames
 
 Init == /\ names = <<>> /\ existing = {} /\ users = <<>> /\ ev = {}
